@@ -47,6 +47,11 @@ def build(ctx, v, t):
                 return Fraction(v) if ctx.exact else float(v)
             return num(ctx, v)
         return num(ctx, v)
+    if isinstance(t, S.Arr):
+        import numpy as np
+
+        flat = [build(ctx, x, t.t) for x in v["__ndarray__"]]
+        return np.array(flat, dtype=float if getattr(t.t, "kind", "real") in ("real", "nanreal") else None).reshape(v["shape"])
     if isinstance(t, S._NanRealT):
         if isinstance(v, dict) and v.get("__nan__"):
             return float("nan")
@@ -65,6 +70,9 @@ def build(ctx, v, t):
     if isinstance(t, S.List):
         items = v["__sortedlist__"] if isinstance(v, dict) and "__sortedlist__" in v else v
         return [build(ctx, x, t.t) for x in (items or [])]
+    if isinstance(t, S.ADict):
+        pairs = v["__dict__"] if isinstance(v, dict) else []
+        return {build(ctx, k, t.k): build(ctx, x, t.v) for k, x in pairs}
     if isinstance(t, S.Map):
         pairs = v["__dict__"] if isinstance(v, dict) else []
         return {build(ctx, k, t.k): build(ctx, x, t.v) for k, x in pairs}
@@ -174,3 +182,11 @@ def build_prung(ctx, f, raw):
 
 
 BUILDERS["crung"] = build_prung
+
+
+@builder("trial")
+def build_trial(ctx, f, raw):
+    import datetime
+    from syne_tune.backend.trial_status import Trial
+
+    return Trial(trial_id=f["trial_id"], config={}, creation_time=datetime.datetime(2020, 1, 1))
